@@ -407,6 +407,21 @@ def run_impl(sdf_text, c, lib):
             ic_ = df.interconnects(c, tl)
         except Exception as e:
             ic_ = e
+        # a DelayFile is a reusable object (one file, several circuits / branchforks settings): printing it and asking again must give the same
+        try:
+            str(df)
+            for what, first, again in (('iopaths', io_, lambda: df.iopaths(c, tl)), ('interconnects', ic_, lambda: df.interconnects(c, tl))):
+                if isinstance(first, Exception):
+                    continue
+                second = again()
+                if not (isinstance(second, np.ndarray) and second.shape == first.shape and np.array_equal(second, first)):
+                    err = RuntimeError(f'the second {what}() call on the same DelayFile (after str(df)) does not return what the first call returned')
+                    if what == 'iopaths':
+                        io_ = err
+                    else:
+                        ic_ = err
+        except Exception as e:
+            ic_ = RuntimeError(f'repeated query of the same DelayFile raises {type(e).__name__}: {e}')
     return df, io_, ic_
 
 
